@@ -5,7 +5,7 @@
    UpdateMaxProbe never under-approximates, the growth policy does not shrink / probing reaches every bucket,
    CalcCapacity <= physical size); they are proved below for the kinds used by the extracted model. *)
 From Coq Require Import ZArith List Bool Permutation.
-From C11 Require Import GrowModel GenTie GenGrow GenFull GenFullP4 GenMove GenSame GenFacts GenFind GenClear TableRel RemoveIfInterp IterInterp.
+From C11 Require Import GrowModel GenTie GenGrow GenFull GenFullP4 GenMove GenSame GenFacts GenFind GenClear TableRel RemoveIfInterp RemoveAtInterp IterInterp.
 Import ListNotations.
 Local Open Scope Z_scope.
 
@@ -847,6 +847,19 @@ Theorem C11_it_begin_is_interpreted_source :
          Some (it_begin B b0 wf0 s).
 Proof. exact it_begin_is_interpreted_source. Qed.
 Print Assumptions C11_it_begin_is_interpreted_source.
+
+(* Remove(iter) rests on the source.  The statements of HashSet::Remove(ConstIterator) and HashSet::pvRemove are read off the clang AST on every run (astfacts.py -> Gen_RelocFacts.remove_iter_stmts / pv_remove_stmts) and interpreted statement by statement on the model state (RemoveAtInterp.v: the two MOMO_CHECKs, position / iterator / index bindings, `buckets = pvFindBuckets(bucketIndex, bucketIter)` = find_buckets, `bucket.Remove(..)` on bucket bucketIndex of THAT generation = tremove, --mCount, IncVersion, the returned iterator built on `buckets` whose constructor runs pvInc; each statement requires the names it uses to be bound).  (1) the interpretation of the CURRENT source equals the removal step of the hand model's remif; (2) the loop body of Remove(filter) is: filter true -> this interpreted Remove(iter), else the interpreted ++iter.  With C11_pv_inc_is_interpreted_source / C11_it_begin_is_interpreted_source no hand-written control flow is left in Remove(filter); what remains by contract is Bucket::Remove (tremove; byte level: GenFull / GenFullP4) and that it returns the iterator at the hole. *)
+Theorem C11_remove_at_is_interpreted_source :
+  forall (B : Type) (b0 : B) (wf0 : bool) (f : Z -> bool) (chain gs : list (table B)) (bi p : nat) (cnt : Z),
+         interp_remove_at B b0 wf0 Gen_RelocFacts.remove_iter_stmts Gen_RelocFacts.pv_remove_stmts (chain, IAt B gs bi p, cnt) =
+         do_act B b0 wf0 RRemoveAt (chain, IAt B gs bi p, cnt) /\
+         do_body B b0 wf0 f src_body (chain, IAt B gs bi p, cnt) =
+         (if f (it_deref B b0 wf0 (IAt B gs bi p))
+          then
+           interp_remove_at B b0 wf0 Gen_RelocFacts.remove_iter_stmts Gen_RelocFacts.pv_remove_stmts (chain, IAt B gs bi p, cnt)
+          else do_act B b0 wf0 RInc (chain, IAt B gs bi p, cnt)).
+Proof. exact remove_at_is_interpreted_source. Qed.
+Print Assumptions C11_remove_at_is_interpreted_source.
 
 (* Remove(filter) rests on the source.  The statements of HashSet::Remove(const ItemFilter&) are read off the clang AST on every run (astfacts.py -> Gen_RelocFacts.remove_filter_stmts: `initCount = GetCount(); iter = GetBegin(); while (!!iter) { if (itemFilter( *iter )) iter = Remove(iter); else ++iter; } return initCount - GetCount();`) and interpreted on the model state (RemoveIfInterp.v: the loop runs until the end iterator, the filter is applied to the item under the iterator, Remove(iter) = the modelled pvRemove -- generation through find_buckets, tremove, count - 1, iterator re-created at the hole and pvInc'ed --, ++iter = pv_inc).  The interpretation of the CURRENT source equals the hand model's hremove_if for every state and filter; C11_remove_if_any_state / C11_inv_step / C11_history_refines_set are theorems about hremove_if.  Hand-modelled primitives: Remove(iter), operator++ / GetBegin (iterator machine).  Swapping the branches, dropping the else, a different loop condition or return expression changes the generated list and breaks this proof. *)
 Theorem C11_remove_filter_is_interpreted_source :
